@@ -424,10 +424,12 @@ impl<'r> G<'r> {
         }
         let target = fid + 1 + self.rng.usize_below(self.nfiles - fid - 1);
         let mut name = format!("f{}.svh", target);
-        match self.rng.below(12) {
+        match self.rng.below(14) {
             0 => name = format!("/inc2/{}", name),
             1 => name = format!("sub/{}", name),
             2 => name = "nowhere.svh".to_string(),
+            3 => name = format!("./{}", name),
+            4 => name = format!("../w/{}", name),
             _ => {}
         }
         let tok = self.tok(fid);
